@@ -22,3 +22,7 @@ C('C05', 'differential oracle: compiled C conversions (ctypes.c_float/struct) an
 C('C15', 'encode/decode unit model over generated strings; byte images of fixed arrays before/after assignment; ASan red zones decide over-long writes',
   'Exploration: 6 character types x round-trip / string(maxlen) with embedded zeros on arrays and pointers / unpack(n) / short-string assignment through 4 paths with array lengths around the string length, over BMP, astral and lone-surrogate text and all byte values.',
   'UTF-16 model assumes no high surrogate directly before a low one; explicit maxlen beyond an array is the caller\'s bound (not generated).')
+
+C('C18', 'differential oracle (second cffi path: element-wise indexing) on random memory, every misalignment; ASan decides over-reads',
+  'Exploration: 38 item types (all integer fast paths, _Bool with bytes>=2, char and wide chars incl. surrogates and out-of-range units, floats, long double, complex, pointers, enums, structs, arrays) x misalignment 0..7 x n up to the end of the malloc block; value or exception class compared.',
+  'cdata elements compared by type and address/value bytes. Known finding: char16_t surrogate pairs are joined by unpack only.')
